@@ -111,7 +111,7 @@ def run(ctx):
     h = codec.H()
     rng = random.Random(ctx.seed + 9)
     thorough = ctx.tier == 'thorough' or ctx.escalate
-    budget = 60000 if thorough else 6000
+    budget = 400000 if thorough else 6000
     ctx.coverage['rule'] = ('%d seed documents (one per construct) under single-position delete / truncate / insert / replace from a %d-character alphabet '
                             '(all positions for short documents), splices of two documents, arbitrary strings; %d structurally broken documents of the '
                             'classes the property names; %d malformed scalars; distinct by text; a document is non-trivial when it differs from every seed'
